@@ -507,7 +507,7 @@ PER_FILE_CONSTANTS = {
 }
 
 
-def full_image(rng, rng_np, typ, lines, pixels, pattern="random", classes=None, optional_header=None, spare=False):
+def full_image(rng, rng_np, typ, lines, pixels, pattern="random", classes=None, optional_header=None, spare=False, near_constant=None):
     rec = synth.REC[typ][0]
     const = {}
     for f in synth.fields(rec):
@@ -521,7 +521,7 @@ def full_image(rng, rng_np, typ, lines, pixels, pattern="random", classes=None, 
         if rec == "sig":
             p["sensor_acquisition_date_microseconds"] = inst["ms"] * 1000 + inst["us"]
         prefix.append(fill_record(rng, rec, p, classes, spare=spare))
-    if lines > 1 and rng.random() < 0.3:
+    if lines > 1 and (near_constant or (near_constant is None and rng.random() < 0.3)):
         # some per-line columns hardly vary over an image (slant range, PRF, latitudes ...): constant, or drifting by one
         # unit in the last place from line to line
         numeric = [f for f in synth.fields(rec) if synth.base_kind(f) in ("u32", "u16", "u64") and f["kind"] not in ("enum", "flag")
@@ -555,7 +555,7 @@ POLS = ["HH", "HV", "VH", "VV"]
 
 def rich_product(rng, np_seed, level=None, n_images=None, scans=None, geoms=None, max_lines=12, max_pixels=8,
                  pattern=None, classes=None, leader_kw=None, summary_order=None, newline="\n", spare=False,
-                 mode=None, optproj=None, image_order=None, pols=None, scene=None):
+                 mode=None, optproj=None, image_order=None, pols=None, scene=None, near_constant=None):
     """a product in which every record carries random admissible content.
 
     -> (files, info) ; info has names, order, per-image models (type/lines/pixels), leader/volume parameters
@@ -585,7 +585,7 @@ def rich_product(rng, np_seed, level=None, n_images=None, scans=None, geoms=None
     for k, n in enumerate(names["imgs"]):
         lines, pixels = geoms[k] if geoms else (rng.randrange(1, max_lines + 1), rng.randrange(1, max_pixels + 1))
         im, iminfo = full_image(rng, np.random.default_rng([*(np_seed if isinstance(np_seed, (list, tuple)) else [np_seed]), k]), typ, lines, pixels,
-                                pattern or rng.choice(["random", "edges", "index"]), classes, spare=spare)
+                                pattern or rng.choice(["random", "edges", "index"]), classes, spare=spare, near_constant=near_constant)
         files[n] = synth.image_bytes(im)
         images[n] = {"type": typ, "lines": lines, "pixels": pixels, **iminfo}
     led, ledinfo = full_leader(rng, classes=classes, spare=spare, **(leader_kw or {}))
